@@ -198,7 +198,11 @@ def judge (ops impl : List String) : Bool × String :=
     else (false, "implementation panicked")
   | [e] =>
     if e.startsWith "err:" ∧ e ≠ "err:badjson" ∧ e ≠ "err:nobinary" ∧ e ≠ "err:other" then
-      if c.slice.isSome ∧ supportedName c.archName then
+      -- An error is accepted when the file has no bytes for the aligned start, when the object's architecture has
+      -- no decoder, or when the binary was loaded under an architecture *name* outside the API's vocabulary
+      -- (Mach-O `i386`, `arm64v8`, `armv7…`: documented limitation, see notes/C20.md). Otherwise - in particular
+      -- when the loaded image reports no architecture at all for an x86 / ARM object - the request must succeed.
+      if c.slice.isSome ∧ c.specArch ≠ .unknown ∧ (supportedName c.archName ∨ c.archName.isNone) then
         (false, s!"availability: the request failed ({e}) although the aligned start address maps to bytes of the file and the architecture is supported")
       else (true, "error response (the statement is about requests that succeed)")
     else (false, s!"unexpected output {e}")
